@@ -1158,6 +1158,53 @@ fn tok<'a>(line: &'a str, name: &str) -> &'a str {
     line.split(' ').find(|t| t.starts_with(name)).map(|t| &t[name.len()..]).unwrap_or("")
 }
 
+/// witness of `txVerdictPropagated` (independent of the ATR flags): genesis, one ordinary block, then a block built by
+/// the real Block::create whose only pooled transaction spends a slip that is NOT in the utxo set (a genesis output
+/// with its amount changed, correctly signed by its owner, outputs <= inputs). 1 = the node's own add_block answers
+/// FailedNotValid; 0 = anything else (pinned: the block is wound and check_total_supply panics).
+pub async fn tx_verdict_witness() -> u8 {
+    let gp = 5;
+    let cfg = Cfg::new(gp, HEARTBEAT, 1_000_000);
+    let mut f = Factory::new(11, cfg.clone());
+    let genesis = f.make_genesis(&[(1, 50_000_000), (2, 70_000)]).await;
+    let mut node = Node::new(9, cfg.clone());
+    node.add_block(genesis.clone()).await;
+    let mut rng = Rng::new(0x7C5);
+    let owner = owner_lookup(NKEYS);
+    let outs = outputs_of(&genesis, &owner);
+    let bank = outs.iter().find(|u| u.owner == 1).unwrap().clone();
+    let victim = outs.iter().find(|u| u.owner == 2).unwrap().clone();
+    // block 2: ordinary
+    let ts2 = genesis.timestamp + 2 * HEARTBEAT + 1;
+    let tx2 = mk_tx(&[bank.slip.clone()], 1, &[(1, bank.slip.amount - 500), (3, 500)], vec![2], ts2);
+    let gt2 = gt_tx(&mut rng, &genesis, 1, ts2);
+    let b2 = match create_on(&node, genesis.hash, ts2, 1, vec![tx2], Some(gt2)).await {
+        Ok(b) => b,
+        Err(_) => return 0,
+    };
+    if guarded_async(node.add_block(b2.clone())).await.map(|r| add_result_class(&r)) != Ok("added_lc") {
+        return 0;
+    }
+    // block 3: spends a key that does not exist
+    let ts3 = b2.timestamp + 2 * HEARTBEAT + 1;
+    let mut ghost = victim.slip.clone();
+    ghost.amount += 1;
+    ghost.generate_utxoset_key();
+    let tx3 = mk_tx(&[ghost.clone()], 2, &[(2, ghost.amount)], vec![3], ts3);
+    let b3 = match create_on(&node, b2.hash, ts3, 1, vec![tx3], None).await {
+        Ok(b) => b,
+        Err(_) => return 0,
+    };
+    let r = guarded_async(node.add_block(b3)).await;
+    if std::env::var("VERIF_LOUD").is_ok() {
+        eprintln!("tx_verdict_witness: block 3 -> {:?}", r.as_ref().map(|r| add_result_class(r)).map_err(|m| m[..m.len().min(60)].to_string()));
+    }
+    match r {
+        Ok(r) => (add_result_class(&r) == "invalid") as u8,
+        Err(_) => 0,
+    }
+}
+
 /// measure the defect flags of the tree under test by replaying the witness histories on the real code
 pub fn calibrate() -> String {
     let rt = rt();
@@ -1204,5 +1251,5 @@ pub fn calibrate() -> String {
             }
         }
     }
-    format!("key={} cap={} hash={} window={}", key, cap, hashf, window)
+    format!("key={} cap={} hash={} window={} txv={}", key, cap, hashf, window, rt.block_on(tx_verdict_witness()))
 }
